@@ -132,6 +132,7 @@ class CSSMediaRule(cssrule.CSSRuleRules):
                 wellformed, expected = self._parse(None, nameseq, nametokens, {})
                 if not wellformed:
                     ok = False
+                    reset()
                     self._log.error(
                         'CSSMediaRule: Syntax Error: %s' % self._valuestr(cssText)
                     )
